@@ -1,0 +1,10 @@
+//go:build verif
+
+package synchronization
+
+// VerifFilteredPathsAreSubset exposes filteredPathsAreSubset (safety.go), the
+// controller's check of the paths returned by Endpoint.Stage, to the
+// verification harness. It exists only under the verif build tag.
+func VerifFilteredPathsAreSubset(filteredPaths, originalPaths []string) bool {
+	return filteredPathsAreSubset(filteredPaths, originalPaths)
+}
